@@ -15,7 +15,7 @@ fn i32_array(store: &[i32; 2], bm: Option<&[u8; 1]>) -> PrimitiveArray<Int32Type
 // the result has 4 rows = rows of a0 then rows of a1 (values on valid slots, nulls preserved).
 // The typed core takes &[&dyn Array], appends through PrimitiveBuilder::append_array and ends in
 // PrimitiveBuilder::finish (ArrayData-level, measured out of reach in the design phase).
-// @unit name=concat_i32_2x2 props=C03 kind=bounded bound=arrays=2_rows=2_validity_on_first_array_only fns=concat_primitives tier=thorough timeout=900 mem=10 note=not_confirmed_at_checkpoint
+// @unit name=concat_i32_2x2 props=C03 kind=bounded bound=arrays=2_rows=2_validity_on_first_array_only fns=concat_primitives timeout=900 mem=10 tier=thorough note=not_confirmed_not_run
 #[kani::proof]
 #[kani::unwind(8)]
 #[kani::stub(alloc::fmt::format, stub_format)]
